@@ -7,7 +7,8 @@ whose disk job is in flight = known finding C08-purge-in-flight).
 The model mirrors the code AFTER the fix of the lock leak (`page_out_at_least` gives `pageout_all`
 back when the lottery has no winners); `c09_lock_discipline` is false for the unfixed code.
 -/
-import EkwVerif.Lemmas.ShmLive
+import EkwVerif.Lemmas.ShmLive3
+import EkwVerif.Lemmas.ShmWriter
 
 namespace EkwVerif.Shm
 open Aux
@@ -23,29 +24,6 @@ theorem maxStart_ge (rs : List (String × Nat)) (r : String) (t0 : Nat) (h : (r,
     rcases List.mem_cons.mp h with h | h
     · cases h; exact Nat.le_max_left _ _
     · exact Nat.le_trans (ih h) (Nat.le_max_right _ _)
-
-theorem pageOut_other (s : St) (k x : String) (h : x ≠ k) : find? (pageOut s k).ds x = find? s.ds x := by
-  unfold pageOut
-  cases find? s.ds k with
-  | none => rfl
-  | some d => simp only; exact find?_set_ne _ _ _ _ h
-
-theorem pageOutAll_other (ws : List String) : ∀ (s : St) (x : String), x ∉ ws →
-    find? (pageOutAll s ws).ds x = find? s.ds x ∧ (pageOutAll s ws).segs = s.segs ∧ (pageOutAll s ws).files = s.files := by
-  induction ws with
-  | nil => intro s x _; exact ⟨rfl, rfl, rfl⟩
-  | cons k ws ih =>
-    intro s x hx
-    simp only [pageOutAll, List.foldl_cons]
-    have h1 : x ≠ k := fun e => hx (e ▸ List.mem_cons_self)
-    have h2 : x ∉ ws := fun e => hx (List.mem_cons_of_mem _ e)
-    obtain ⟨r1, r2, r3⟩ := ih (pageOut s k) x h2
-    exact ⟨r1.trans (pageOut_other s k x h1), r2.trans (pageOut_frame s k).2.2.2.2.1, r3.trans (pageOut_frame s k).2.2.2.2.2.1⟩
-
-theorem pageOutAll_segs (ws : List String) : ∀ (s : St), (pageOutAll s ws).segs = s.segs := by
-  induction ws with
-  | nil => intro s; rfl
-  | cons k ws ih => intro s; simp only [pageOutAll, List.foldl_cons]; exact (ih _).trans (pageOut_frame s k).2.2.2.2.1
 
 end Aux
 
@@ -142,6 +120,12 @@ theorem kw_purge (s : St) (k : String) (hn : Nd s.ds) : KeepsWrote s.ds (purge s
         | none => exact kw_refl _
         | some g => exact kw_erase _ _ hn
 
+theorem kw_purgeFailed (s : St) (k : String) (hn : Nd s.ds) : KeepsWrote s.ds (purgeFailed s k).ds := by
+  unfold purgeFailed
+  cases hd : find? s.ds k with
+  | none => exact kw_refl _
+  | some d => simp only; split; exact kw_refl _; exact kw_erase _ _ hn
+
 theorem kw_afterClose (s : St) (k : String) (hn : Nd s.ds) : KeepsWrote s.ds (afterClose s k).ds := by
   unfold afterClose
   cases find? s.ds k with
@@ -200,21 +184,7 @@ theorem kw_get (s : St) (k : String) (t : Nat) (cands : List String) : KeepsWrot
       · exact kw_refl _
       · exact kw_set _ _ d _ hd rfl
 
-theorem ioStep_ds (s : St) (id : Nat) (inj : IoRes) : (ioStep s id inj).1.ds = s.ds := by
-  unfold ioStep
-  cases findJob s.jobs id with
-  | none => rfl
-  | some j =>
-    simp only
-    split
-    · rfl
-    · cases j.kind with
-      | out => simp only; split; rfl; cases find? s.segs j.key <;> rfl
-      | inn =>
-        simp only; split; rfl
-        cases find? s.segs j.key with
-        | some g => rfl
-        | none => simp only; split; rfl; split <;> rfl
+theorem ioStep_ds (s : St) (id : Nat) (inj : IoRes) : (ioStep s id inj).1.ds = s.ds := (ioStep_frame s id inj).1
 
 theorem kw_cbStep (s : St) (id : Nat) (hn : Nd s.ds) : KeepsWrote s.ds (cbStep s id).1.ds := by
   unfold cbStep
@@ -232,9 +202,9 @@ theorem kw_cbStep (s : St) (id : Nat) (hn : Nd s.ds) : KeepsWrote s.ds (cbStep s
         | none => exact kw_refl _
         | some d => simp only; split; exact kw_set _ _ d _ hd rfl; exact kw_refl _
       cases j.kind <;> cases b <;> simp only [decCount]
-      · exact kw_purge { s with jobs := eraseJob s.jobs id } j.key hn
+      · exact kw_purgeFailed { s with jobs := eraseJob s.jobs id } j.key hn
       · exact hss _
-      · exact kw_purge { s with jobs := eraseJob s.jobs id } j.key hn
+      · exact kw_purgeFailed { s with jobs := eraseJob s.jobs id } j.key hn
       · exact hss _
 
 end Aux
@@ -242,11 +212,11 @@ end Aux
 /-- The ghost field `wrote` of the content theorem is what it claims to be: the writer's
 create-and-write step records its token and puts exactly these bytes into the fresh segment … -/
 theorem c09_writer_writes (s : St) (k : String) (size tok : Nat) (d : Dataset) (hd : find? s.ds k = some d)
-    (hg : find? s.segs k = none) :
+    (hg : find? s.segs k = none) (hs : size ≠ 0) :
     (cwrite s k size tok).2 = .ok ∧ find? (cwrite s k size tok).1.segs k = some ⟨size, tok⟩ ∧
     ∃ d', find? (cwrite s k size tok).1.ds k = some d' ∧ d'.wrote = some tok := by
   have e : cwrite s k size tok = ({ s with segs := s.segs ++ [(k, { size := size, data := tok })], ds := set s.ds k { d with wrote := some tok } }, .ok) := by
-    simp [cwrite, hg, hd]
+    simp [cwrite, hg, hd, hs]
   rw [e]
   exact ⟨rfl, find?_append_self _ _ _ hg, _, find?_set_self _ _ _ _ hd, rfl⟩
 
@@ -281,6 +251,8 @@ theorem c09_wrote_only_by_writer (s : St) (hn : Nd s.ds) (op : Op) (k : String) 
   | cwrite k' size tok =>
     have hk : k ≠ k' := by intro e; subst e; exact hop size tok rfl
     simp only [step, cwrite] at hd'
+    split at hd'
+    · rw [hd] at hd'; cases hd'; rfl
     cases hg : find? s.segs k' with
     | some g => simp only [hg] at hd'; rw [hd] at hd'; cases hd'; rfl
     | none =>
@@ -366,14 +338,17 @@ theorem c09_keys_unique (cap sc sr : Nat) (ops : List Op) : Nd (run (init cap sc
 
 /-! ### delayed purge -/
 
-/-- The close of the last reader executes a purge that arrived during the read: the dataset is
-gone, its segment is unlinked, its size is returned. For EVERY state with unique keys. -/
-theorem c09_delayed_purge (s : St) (k r : String) (t0 : Nat) (d : Dataset) (g : Seg)
+/-- The close of the last reader (`r` is the only id left: any number of readers may have come and gone) executes a
+purge that arrived during the read: the dataset is gone, its segment is unlinked, its size is returned. For EVERY state
+with unique keys in which the dataset is still `in_memory` -- which `c09_protected_step` guarantees as long as one of
+its readers is younger than STALE_READ; for a dataset evicted under readers that have all gone stale see
+`c09_delayed_purge_stale_full_fails`. -/
+theorem c09_delayed_purge (s : St) (k r : String) (d : Dataset) (g : Seg)
     (hn : Nd s.ds) (hns : Nd s.segs) (hd : find? s.ds k = some d) (hst : d.status = .inMemory)
-    (hr : d.readers = [(r, t0)]) (hne : r ≠ "") (hdel : d.delayed = true) (hg : find? s.segs k = some g) :
+    (hr : eraseReader d.readers r = []) (hne : r ≠ "") (hdel : d.delayed = true) (hg : find? s.segs k = some g) :
     (closeCb s k r).2 = .ok ∧ find? (closeCb s k r).1.ds k = none ∧ find? (closeCb s k r).1.segs k = none ∧
     (closeCb s k r).1.free = s.free + d.size := by
-  have e1 : eraseReader d.readers r = [] := by simp [eraseReader, erase, hr]
+  have e1 : eraseReader d.readers r = [] := hr
   have hd' : ∀ w, find? (set s.ds k w) k = some w := fun w => find?_set_self s.ds k w d hd
   have e : closeCb s k r =
       ({ s with segs := erase s.segs k, free := s.free + d.size, ds := erase (set s.ds k { d with readers := [] }) k }, .ok) := by
@@ -408,6 +383,17 @@ theorem purge_other (s : St) (k' k : String) (h : k ≠ k') :
       · cases find? s.segs k' with
         | none => exact ⟨rfl, rfl⟩
         | some g => exact ⟨find?_erase_ne _ _ _ h, find?_erase_ne _ _ _ h⟩
+
+theorem purgeFailed_other (s : St) (k' k : String) (h : k ≠ k') :
+    find? (purgeFailed s k').ds k = find? s.ds k ∧ find? (purgeFailed s k').segs k = find? s.segs k := by
+  unfold purgeFailed
+  cases find? s.ds k' with
+  | none => exact ⟨rfl, rfl⟩
+  | some d =>
+    simp only
+    split
+    · exact ⟨rfl, rfl⟩
+    · exact ⟨find?_erase_ne _ _ _ h, find?_erase_ne _ _ _ h⟩
 
 theorem afterClose_other (s : St) (k' k : String) (h : k ≠ k') :
     find? (afterClose s k').ds k = find? s.ds k ∧ find? (afterClose s k').segs k = find? s.segs k := by
@@ -468,6 +454,8 @@ theorem c09_protected_step (s : St) (hb : Base s) (hc : Core s) (op : Op) (k : S
         · exact ⟨⟨d, find?_append_some _ _ _ _ _ hd, hst, hr, rfl⟩, fun g hg => hg⟩
   | cwrite k' size tok =>
     simp only [step, cwrite]
+    split
+    · exact ⟨same, fun g hg => hg⟩
     cases hg' : find? s.segs k' with
     | some g' => exact ⟨same, fun g hg => hg⟩
     | none =>
@@ -586,7 +574,9 @@ theorem c09_protected_step (s : St) (hb : Base s) (hc : Core s) (op : Op) (k : S
               · exact ⟨same, fun g hg => by simp only; rw [find?_append_ne _ _ _ _ hjk]; exact hg⟩
               · split
                 · exact ⟨same, fun g hg => by simp only; rw [find?_append_ne _ _ _ _ hjk]; exact hg⟩
-                · exact ⟨same, fun g hg => by simp only; rw [find?_append_ne _ _ _ _ hjk]; exact hg⟩
+                · split
+                  · exact ⟨same, fun g hg => by simp only; rw [find?_append_ne _ _ _ _ hjk]; exact hg⟩
+                  · exact ⟨same, fun g hg => by simp only; rw [find?_append_ne _ _ _ _ hjk]; exact hg⟩
   | cb id =>
     simp only [step, cbStep]
     cases hf : findJob s.jobs id with
@@ -605,12 +595,51 @@ theorem c09_protected_step (s : St) (hb : Base s) (hc : Core s) (op : Op) (k : S
           | none => exact hd
           | some dj => simp only; split; rw [find?_set_ne _ _ _ _ hjk]; exact hd; exact hd
         cases j.kind <;> cases b <;> simp only [decCount]
-        · obtain ⟨a1, a2⟩ := purge_other { s with jobs := eraseJob s.jobs id } j.key k hjk
+        · obtain ⟨a1, a2⟩ := purgeFailed_other { s with jobs := eraseJob s.jobs id } j.key k hjk
           exact ⟨⟨d, by rw [a1]; exact hd, hst, hr, rfl⟩, fun g hg => by rw [a2]; exact hg⟩
         · exact ⟨⟨d, hss _, hst, hr, rfl⟩, fun g hg => hg⟩
-        · obtain ⟨a1, a2⟩ := purge_other { s with jobs := eraseJob s.jobs id } j.key k hjk
+        · obtain ⟨a1, a2⟩ := purgeFailed_other { s with jobs := eraseJob s.jobs id } j.key k hjk
           exact ⟨⟨d, by rw [a1]; exact hd, hst, hr, rfl⟩, fun g hg => by rw [a2]; exact hg⟩
         · exact ⟨⟨d, hss _, hst, hr, rfl⟩, fun g hg => hg⟩
+
+/-- … and also across the one interleaving that is finer than a step: a purge of ANY key `k'` served while the writer
+thread of a page-out job is between writing its file and unlinking the segment (`ioMidPurge`, see
+`c08_midio_purge_atomic`). The protected dataset stays `in_memory`, the same object, held by `r`, its segment untouched
+(a purge of the protected key itself is only recorded as `delayed_purge`). -/
+theorem c09_protected_midio (s : St) (_hb : Base s) (hc : Core s) (id : Nat) (k' : String) (k : String) (d : Dataset)
+    (hd : find? s.ds k = some d) (hst : d.status = .inMemory) (r : String) (t0 : Nat) (hr : (r, t0) ∈ d.readers) :
+    (∃ d', find? (ioMidPurge s id k').1.ds k = some d' ∧ d'.status = .inMemory ∧ (r, t0) ∈ d'.readers ∧ d'.gen = d.gen) ∧
+    (∀ g, find? s.segs k = some g → find? (ioMidPurge s id k').1.segs k = some g) := by
+  have same : (∃ d', find? s.ds k = some d' ∧ d'.status = .inMemory ∧ (r, t0) ∈ d'.readers ∧ d'.gen = d.gen) :=
+    ⟨d, hd, hst, hr, rfl⟩
+  have hnj : ∀ j ∈ s.jobs, j.key ≠ k := no_job_at s hc k d hd (by simp [hst])
+  have hrne : d.readers ≠ [] := by intro e; rw [e] at hr; cases hr
+  unfold ioMidPurge
+  cases hf : findJob s.jobs id with
+  | none => exact ⟨same, fun g hg => hg⟩
+  | some j =>
+    simp only
+    have hjk : k ≠ j.key := fun e => hnj j (findJob_some _ _ _ hf).1 e.symm
+    split
+    · exact ⟨same, fun g hg => hg⟩
+    · cases hg0 : find? s.segs j.key with
+      | none => exact ⟨same, fun g hg => hg⟩
+      | some g0 =>
+        simp only
+        -- the purge, on the state whose spill file has been written
+        have hp : (∃ d', find? (purge { s with files := put s.files j.key g0 } k').ds k = some d' ∧ d'.status = .inMemory ∧
+              (r, t0) ∈ d'.readers ∧ d'.gen = d.gen) ∧
+            (∀ g, find? s.segs k = some g → find? (purge { s with files := put s.files j.key g0 } k').segs k = some g) := by
+          by_cases hk : k = k'
+          · subst hk
+            rw [c09_protected_purge { s with files := put s.files j.key g0 } k d hd hrne]
+            exact ⟨⟨_, find?_set_self _ _ _ _ hd, hst, hr, rfl⟩, fun g hg => hg⟩
+          · obtain ⟨a1, a2⟩ := purge_other { s with files := put s.files j.key g0 } k' k hk
+            exact ⟨⟨d, by rw [a1]; exact hd, hst, hr, rfl⟩, fun g hg => by rw [a2]; exact hg⟩
+        obtain ⟨hp1, hp2⟩ := hp
+        cases find? (purge { s with files := put s.files j.key g0 } k').segs j.key with
+        | some g1 => exact ⟨hp1, fun g hg => by simp only; rw [find?_erase_ne _ _ _ hjk]; exact hp2 g hg⟩
+        | none => exact ⟨hp1, fun g hg => hp2 g hg⟩
 
 /-- `c09_protected_step` for the states reached by `SafeRun` histories (same gap as
 `c09_content_partial`: the purge/disk-job race, where an orphaned page-out job can unlink the
@@ -644,104 +673,331 @@ theorem c09_lock_discipline (cap sc sr : Nat) (ops : List Op) :
 
 /-! ### eventually granted -/
 
-/-- every dataset that is evictable at time `t` has really been written (its segment exists);
-holds when writers create their segment before they close (and stale writers did so) -/
-def EvictableWritten (s : St) (t : Nat) : Prop :=
-  ∀ p ∈ s.ds, isPageoutable s.staleCreate s.staleRead p.2 t = true → (find? s.segs p.1).isSome = true
+/-- **A batch in flight always ends** (every history, no assumption on the clients): once the disk jobs pending after
+any history have completed -- page-outs and page-ins, I/O part already done or not, each one succeeding or failing
+(`inj` arbitrary) -- the pool is empty and `pageout_all` is free, so the next eviction attempt is not turned away. -/
+theorem c09_batch_in_flight_ends (cap sc sr : Nat) (ops : List Op) (inj : Nat → IoRes) :
+    (drainWith (run (init cap sc sr) ops) (run (init cap sc sr) ops).jobs inj).jobs = [] ∧
+    (drainWith (run (init cap sc sr) ops) (run (init cap sc sr) ops).jobs inj).lock = false := by
+  obtain ⟨a, b, _⟩ := drainWith_quiesces inj _ _ (base_run ops _ (base_init cap sc sr)) rfl
+  exact ⟨a, b⟩
 
-instance (s : St) (t : Nat) : Decidable (EvictableWritten s t) := by unfold EvictableWritten; exact inferInstance
-
-namespace Aux
-
-theorem eventually_granted (s : St) (hb : Base s) (hc : Core s) (k : String) (size : Nat) (deser : String) (t t' : Nat)
-    (hq : s.jobs = []) (hk : find? s.ds k = none) (hcap : size ≤ s.cap)
-    (hroom : size ≤ s.free + candTotal s.staleCreate s.staleRead t s.ds) (hw : EvictableWritten s t) :
-    (add s k size deser t).2 = .granted ∨
-    ((add s k size deser t).2 = .wait ∧
-      (add (drain (add s k size deser t).1 (add s k size deser t).1.jobs) k size deser t').2 = .granted) := by
-  by_cases hfit : size ≤ s.free
-  · left
-    have h1 : ¬ size > s.cap := by omega
-    have h2 : ¬ size > s.free := by omega
-    simp [add, hk, h1, h2]
-  · right
-    have h1 : ¬ size > s.cap := by omega
-    have h2 : size > s.free := by omega
-    have hadd : add s k size deser t = (pageOutAtLeast s (size - s.free) t, .wait) := by simp [add, hk, h1, h2]
-    rw [hadd]
-    refine ⟨rfl, ?_⟩
-    simp only
-    -- the state after the first request is a `step`: invariants carry over
-    have hstep : (step s (.add k size deser t)).1 = pageOutAtLeast s (size - s.free) t := by simp [step, hadd]
-    have hb1 : Base (pageOutAtLeast s (size - s.free) t) := hstep ▸ base_step s _ hb
-    have hc1 : Core (pageOutAtLeast s (size - s.free) t) := hstep ▸ core_step s _ hb hc rfl
-    -- the lock is free because nothing is pending (lock discipline)
-    have hlock : s.lock = false := by
-      have h0 : s.count = 0 := by rw [hb.countJobs, hq]; rfl
-      cases hl : s.lock
-      · rfl
-      · have := hb.lockCount.mp hl; omega
-    generalize hws : lottery (candidates s.staleCreate s.staleRead t s.ds) (size - s.free) = ws at *
-    have henough : size - s.free ≤ (ws.map (dsize s.ds)).sum := by
-      rw [← hws]; exact lottery_enough _ _ _ _ _ hb.nd (by omega)
-    have hne : ws.isEmpty = false := by
-      cases ws with
-      | nil => simp at henough; omega
-      | cons _ _ => rfl
-    have hs1 : pageOutAtLeast s (size - s.free) t = pageOutAll { s with lock := true, count := ws.length } ws := by
-      simp [pageOutAtLeast, hlock, hws, hne]
-    have hwin : ∀ w ∈ ws, ∃ d, find? s.ds w = some d ∧ isPageoutable s.staleCreate s.staleRead d t = true := by
-      intro w hw'; rw [← hws] at hw'; exact winners_pageoutable _ _ _ _ _ hb.nd w hw'
-    have hfound : ∀ w ∈ ws, (find? ({ s with lock := true, count := ws.length } : St).ds w).isSome = true := by
-      intro w hw'; obtain ⟨d, hd, _⟩ := hwin w hw'; simp [hd]
-    obtain ⟨J, hJ, hall, hsum⟩ := pageOutAll_spec ws { s with lock := true, count := ws.length } hfound
-    have hJ' : (pageOutAtLeast s (size - s.free) t).jobs = J := by rw [hs1, hJ]; simp [hq]
-    have hsegs : (pageOutAtLeast s (size - s.free) t).segs = s.segs := by rw [hs1]; exact pageOutAll_segs ws _
-    obtain ⟨f1, c1, k1⟩ := pageOutAtLeast_free s (size - s.free) t
-    have hall' : ∀ j ∈ J, j.kind = .out ∧ j.io = none ∧ (find? (pageOutAtLeast s (size - s.free) t).segs j.key).isSome = true := by
-      intro j hj
-      obtain ⟨a, b, c⟩ := hall j hj
-      obtain ⟨d, hd, hp⟩ := hwin j.key c
-      exact ⟨a, b, by rw [hsegs]; exact hw (j.key, d) (find?_mem _ _ _ hd) hp⟩
-    obtain ⟨q1, q2, _, q4⟩ := drain_all J _ hb1 hc1 hJ' hall'
-    rw [hJ']
-    have hk2 : find? (drain (pageOutAtLeast s (size - s.free) t) J).ds k = none := by
-      have := (q4 k).trans (k1 k)
-      rw [hk] at this
-      cases h : find? (drain (pageOutAtLeast s (size - s.free) t) J).ds k <;> simp [h] at this ⊢
-    have hfree : size ≤ (drain (pageOutAtLeast s (size - s.free) t) J).free := by
-      rw [q1, f1, hsum]
-      have : (ws.map (dsize ({ s with lock := true, count := ws.length } : St).ds)).sum = (ws.map (dsize s.ds)).sum := rfl
-      omega
-    have hcap2 : ¬ size > (drain (pageOutAtLeast s (size - s.free) t) J).cap := by rw [q2, c1]; omega
-    have hfree2 : ¬ size > (drain (pageOutAtLeast s (size - s.free) t) J).free := by omega
-    simp [add, hk2, hcap2, hfree2]
-
-end Aux
-
-/-- A request that can be satisfied by evicting idle datasets is eventually granted: in every
-state reached by a `SafeRun` history in which all disk jobs have completed — including states
-reached after an eviction attempt that found nothing evictable — an allocation of a new key with
-`size ≤ capacity` and `size ≤ free + Σ sizes of the datasets evictable now` is either granted at
-once, or answered `wait`, and after the launched page-out jobs have completed (I/O successful)
-the retry is granted. Uses `c09_lock_discipline` (the lock must be free when nothing is pending —
-false before the fix), "the lottery frees enough", "one job per winner", "a completed page-out
-returns its size". Same `SafeRun` gap as `c09_content_partial`; `EvictableWritten` states that
-the evictable datasets have segments to write out. -/
-theorem c09_eventually_granted_partial (cap sc sr : Nat) (ops : List Op) (hs : SafeRun (init cap sc sr) ops)
-    (k : String) (size : Nat) (deser : String) (t t' : Nat)
-    (hq : (run (init cap sc sr) ops).jobs = [])
-    (hk : find? (run (init cap sc sr) ops).ds k = none)
-    (hcap : size ≤ (run (init cap sc sr) ops).cap)
-    (hroom : size ≤ (run (init cap sc sr) ops).free +
-      candTotal (run (init cap sc sr) ops).staleCreate (run (init cap sc sr) ops).staleRead t (run (init cap sc sr) ops).ds)
-    (hw : EvictableWritten (run (init cap sc sr) ops) t) :
-    (add (run (init cap sc sr) ops) k size deser t).2 = .granted ∨
-    ((add (run (init cap sc sr) ops) k size deser t).2 = .wait ∧
-      (add (drain (add (run (init cap sc sr) ops) k size deser t).1 (add (run (init cap sc sr) ops) k size deser t).1.jobs)
-        k size deser t').2 = .granted) := by
+/-- A page-out job gives its space back whatever its outcome (`inj` = success, unwritable spill directory, missing
+segment …): after its I/O part and its callback, free space has grown by exactly the dataset's size. With the failure
+callback's purge as it was before the fix this is false (the dataset stayed `paging_out`, its space was never
+returned; witness corpus/C09_stuck_pageout.json). -/
+theorem c09_pageout_returns_space_partial (cap sc sr : Nat) (ops : List Op) (hs : SafeRun (init cap sc sr) ops) (j : Job) (inj : IoRes)
+    (hj : j ∈ (run (init cap sc sr) ops).jobs) (hk : j.kind = .out) (hio : j.io = none) :
+    (completeWith (run (init cap sc sr) ops) j.id inj).free = (run (init cap sc sr) ops).free + j.size := by
   obtain ⟨hb, hc⟩ := core_run ops _ (base_init cap sc sr) (core_init cap sc sr) hs
-  exact eventually_granted _ hb hc k size deser t t' hq hk hcap hroom hw
+  exact (completeWith_out _ j inj hb hc hj hk hio).1
+
+/-- **A request that can be satisfied by evicting idle datasets is eventually granted** -- from ANY state reached by a
+`SafeRun` history, with ANY outcomes of the disk jobs: let the jobs in flight complete (each succeeding or failing,
+`inj0`); in the quiescent state `s0` so reached, an allocation of a new key with `size ≤ capacity` and
+`size ≤ free + Σ sizes of the datasets evictable now` is granted at once, or answered `wait`, and after the page-outs it
+launched have completed (each succeeding or failing, `inj1`) the retry is granted. Uses the lock discipline ("the lock
+is free when nothing is pending" -- false before the lock-leak fix), "the lottery frees enough", "one job per winner",
+"a completed page-out returns its size whatever its outcome" (false before the failed-job-purge fix).
+Remaining gap: `SafeRun` (purge racing an in-flight disk job, as for `c09_content_partial`). -/
+theorem c09_eventually_granted_partial (cap sc sr : Nat) (ops : List Op) (hs : SafeRun (init cap sc sr) ops)
+    (inj0 inj1 : Nat → IoRes) (k : String) (size : Nat) (deser : String) (t t' : Nat) :
+    let s0 := drainWith (run (init cap sc sr) ops) (run (init cap sc sr) ops).jobs inj0
+    s0.jobs = [] ∧
+    (find? s0.ds k = none → size ≤ s0.cap → size ≤ s0.free + candTotal s0.staleCreate s0.staleRead t s0.ds →
+      (add s0 k size deser t).2 = .granted ∨
+      ((add s0 k size deser t).2 = .wait ∧
+        (add (drainWith (add s0 k size deser t).1 (add s0 k size deser t).1.jobs inj1) k size deser t').2 = .granted)) := by
+  obtain ⟨hb, hc⟩ := core_run ops _ (base_init cap sc sr) (core_init cap sc sr) hs
+  obtain ⟨hc0, hb0⟩ := core_drainWith inj0 (run (init cap sc sr) ops).jobs _ hb hc
+  obtain ⟨hq, _, _⟩ := drainWith_quiesces inj0 _ _ hb rfl
+  exact ⟨hq, fun hk hcap hroom => eventually_granted_any _ hb0 hc0 k size deser t t' inj1 hq hk hcap hroom⟩
+
+/-- **… and so is a `get` of a dataset that is on disk**: in the quiescent state `s0` (as above), for a dataset on disk
+whose writer wrote `tok`, with `size ≤ free + Σ sizes of the datasets evictable now`: if it fits, the first request
+launches the page-in and the next one after that job's successful completion is granted; if it does not, the first
+request launches page-outs, after their completion (each succeeding or failing) the second launches the page-in, and
+the third is granted -- and the segment handed out holds the writer's bytes. -/
+theorem c09_get_eventually_granted_partial (cap sc sr : Nat) (ops : List Op) (hs : SafeRun (init cap sc sr) ops)
+    (inj0 inj1 : Nat → IoRes) (k : String) (d : Dataset) (tok : Nat) (t1 t2 t3 : Nat) (c1 c2 c3 : List String) (r : String) :
+    let s0 := drainWith (run (init cap sc sr) ops) (run (init cap sc sr) ops).jobs inj0
+    find? s0.ds k = some d → d.status = .onDisk → d.wrote = some tok → d.size ≠ 0 → firstFresh d.readers c3 = some r →
+    d.size ≤ s0.free + candTotal s0.staleCreate s0.staleRead t1 s0.ds →
+    (d.size ≤ s0.free ∧ (get s0 k t1 c1).2 = .wait ∧
+      (get (drainWith (get s0 k t1 c1).1 (get s0 k t1 c1).1.jobs (fun _ => .ok)) k t3 c3).2 = .granted d.size r d.deser) ∨
+    (s0.free < d.size ∧ (get s0 k t1 c1).2 = .wait ∧
+      let s2 := drainWith (get s0 k t1 c1).1 (get s0 k t1 c1).1.jobs inj1
+      (get s2 k t2 c2).2 = .wait ∧
+      (get (drainWith (get s2 k t2 c2).1 (get s2 k t2 c2).1.jobs (fun _ => .ok)) k t3 c3).2 = .granted d.size r d.deser ∧
+      find? (drainWith (get s2 k t2 c2).1 (get s2 k t2 c2).1.jobs (fun _ => .ok)).segs k = some ⟨d.size, tok⟩) := by
+  obtain ⟨hb, hc⟩ := core_run ops _ (base_init cap sc sr) (core_init cap sc sr) hs
+  obtain ⟨hc0, hb0⟩ := core_drainWith inj0 (run (init cap sc sr) ops).jobs _ hb hc
+  obtain ⟨hq, _, _⟩ := drainWith_quiesces inj0 _ _ hb rfl
+  intro s0 hd hst hw hs0 hr hroom
+  exact get_eventually _ hb0 hc0 hq k d tok hd hst hw hs0 t1 t2 t3 c1 c2 c3 r hr inj1 hroom
+
+/-! ### the same at the API the workers use: `client.allocate`, `client.get` (`_send_command`) -/
+
+/-- `client.allocate` in a quiescent `SafeRun`-reachable state, for a new key with `size ≤ capacity` and
+`size ≤ free + evictable`: if the environment lets the launched page-outs complete during the first pause (each
+succeeding or failing), the call returns the buffer after at most two requests -- for every timeout that allows a second
+request (`100 ms < budget`; the default is 60 s), whatever follows in the schedule. -/
+theorem c09_client_allocate_granted_partial (cap sc sr : Nat) (ops : List Op) (hs : SafeRun (init cap sc sr) ops)
+    (hq : (run (init cap sc sr) ops).jobs = []) (inj : Nat → IoRes) (k : String) (size : Nat) (deser : String)
+    (budget : Nat) (hbud : sleepMs < budget) (a1 a2 : Attempt) (rest : List Attempt)
+    (hk : find? (run (init cap sc sr) ops).ds k = none) (hcap : size ≤ (run (init cap sc sr) ops).cap)
+    (hroom : size ≤ (run (init cap sc sr) ops).free +
+      candTotal (run (init cap sc sr) ops).staleCreate (run (init cap sc sr) ops).staleRead a1.t (run (init cap sc sr) ops).ds)
+    (h1 : a1.env = []) (h2 : a2.env = drainOps (add (run (init cap sc sr) ops) k size deser a1.t).1.jobs inj) :
+    ∃ s' n, clientAlloc (run (init cap sc sr) ops) k size deser budget (a1 :: a2 :: rest) = (s', .granted "", n) ∧ n ≤ 2 := by
+  obtain ⟨hb, hc⟩ := core_run ops _ (base_init cap sc sr) (core_init cap sc sr) hs
+  generalize run (init cap sc sr) ops = s at *
+  have hpos : 0 < budget := by unfold sleepMs at hbud; omega
+  have hpos2 : 0 < budget - min sleepMs budget := by unfold sleepMs at *; omega
+  unfold clientAlloc
+  rcases eventually_granted_any s hb hc k size deser a1.t a2.t inj hq hk hcap hroom with hg | ⟨hw, hg⟩
+  · refine ⟨(add s k size deser a1.t).1, 1, ?_, by omega⟩
+    apply sendLoop_first _ _ _ _ _ _ hpos
+    rw [h1]; simp only [run, askAdd]
+    cases hadd : add s k size deser a1.t with
+    | mk s1 o => rw [hadd] at hg; simp only at hg; subst hg; rfl
+  · have e1 : askAdd k size deser (run s a1.env) a1 = ((add s k size deser a1.t).1, none) := by
+      rw [h1]; simp only [run, askAdd]
+      cases hadd : add s k size deser a1.t with
+      | mk s1 o => rw [hadd] at hw; simp only at hw; subst hw; rfl
+    rw [sendLoop_wait _ _ _ _ _ _ hpos _ e1]
+    refine ⟨(add (drainWith (add s k size deser a1.t).1 (add s k size deser a1.t).1.jobs inj) k size deser a2.t).1, 2, ?_, by omega⟩
+    apply sendLoop_first _ _ _ _ _ _ hpos2
+    rw [h2, run_drainOps]; simp only [askAdd]
+    cases hadd : add (drainWith (add s k size deser a1.t).1 (add s k size deser a1.t).1.jobs inj) k size deser a2.t with
+    | mk s1 o => rw [hadd] at hg; simp only at hg; subst hg; rfl
+
+/-- `client.get` of a dataset on disk, same setting: if it fits, two requests (page-in launched; granted after the job has
+completed during the pause); if not, three (page-outs launched; page-in launched after they completed, each succeeding
+or failing; granted after the page-in completed) -- for every timeout that allows a third request (`200 ms < budget`).
+The reader id in the result is the one the close lambda will send. -/
+theorem c09_client_get_granted_partial (cap sc sr : Nat) (ops : List Op) (hs : SafeRun (init cap sc sr) ops)
+    (hq : (run (init cap sc sr) ops).jobs = []) (inj : Nat → IoRes) (k : String) (d : Dataset) (tok : Nat)
+    (budget : Nat) (hbud : 2 * sleepMs < budget) (a1 a2 a3 : Attempt) (rest : List Attempt) (r : String)
+    (hd : find? (run (init cap sc sr) ops).ds k = some d) (hst : d.status = .onDisk) (hw : d.wrote = some tok) (hs0 : d.size ≠ 0)
+    (hroom : d.size ≤ (run (init cap sc sr) ops).free +
+      candTotal (run (init cap sc sr) ops).staleCreate (run (init cap sc sr) ops).staleRead a1.t (run (init cap sc sr) ops).ds)
+    (h1 : a1.env = []) :
+    (d.size ≤ (run (init cap sc sr) ops).free →
+      a2.env = drainOps (get (run (init cap sc sr) ops) k a1.t a1.cands).1.jobs (fun _ => .ok) →
+      firstFresh d.readers a2.cands = some r →
+      ∃ s', clientGet (run (init cap sc sr) ops) k budget (a1 :: a2 :: rest) = (s', .granted r, 2)) ∧
+    ((run (init cap sc sr) ops).free < d.size →
+      a2.env = drainOps (get (run (init cap sc sr) ops) k a1.t a1.cands).1.jobs inj →
+      a3.env = drainOps (get (drainWith (get (run (init cap sc sr) ops) k a1.t a1.cands).1
+                              (get (run (init cap sc sr) ops) k a1.t a1.cands).1.jobs inj) k a2.t a2.cands).1.jobs (fun _ => .ok) →
+      firstFresh d.readers a3.cands = some r →
+      ∃ s', clientGet (run (init cap sc sr) ops) k budget (a1 :: a2 :: a3 :: rest) = (s', .granted r, 3)) := by
+  obtain ⟨hb, hc⟩ := core_run ops _ (base_init cap sc sr) (core_init cap sc sr) hs
+  generalize run (init cap sc sr) ops = s at *
+  have hpos : 0 < budget := by unfold sleepMs at hbud; omega
+  have hpos2 : 0 < budget - min sleepMs budget := by unfold sleepMs at *; omega
+  have hpos3 : 0 < budget - min sleepMs budget - min sleepMs (budget - min sleepMs budget) := by unfold sleepMs at *; omega
+  -- an attempt answered `wait` / granted, as `askGet` sees it
+  have waitAns : ∀ (u : St) (a : Attempt), (get u k a.t a.cands).2 = .wait → askGet k u a = ((get u k a.t a.cands).1, none) := by
+    intro u a h
+    unfold askGet
+    cases hg : get u k a.t a.cands with
+    | mk u1 o => rw [hg] at h; simp only at h; subst h; rfl
+  have grantAns : ∀ (u : St) (a : Attempt) (size : Nat) (deser : String), (get u k a.t a.cands).2 = .granted size r deser →
+      askGet k u a = ((get u k a.t a.cands).1, some (.granted r)) := by
+    intro u a size deser h
+    unfold askGet
+    cases hg : get u k a.t a.cands with
+    | mk u1 o => rw [hg] at h; simp only at h; subst h; rfl
+  constructor
+  · intro hfit h2 hr
+    obtain ⟨w1, g2, _⟩ := get_pagein_granted s hb hc hq k d tok hd hst hw hs0 hfit a1.t a2.t a1.cands a2.cands r hr
+    unfold clientGet
+    have e1 : askGet k (run s a1.env) a1 = ((get s k a1.t a1.cands).1, none) := by rw [h1]; exact waitAns s a1 w1
+    rw [sendLoop_wait _ _ _ _ _ _ hpos _ e1]
+    exact ⟨_, sendLoop_first _ _ _ _ _ _ hpos2 _ _ (by rw [h2, run_drainOps]; exact grantAns _ a2 _ _ g2)⟩
+  · intro hnofit h2 h3 hr
+    rcases get_eventually s hb hc hq k d tok hd hst hw hs0 a1.t a2.t a3.t a1.cands a2.cands a3.cands r hr inj hroom with ⟨hfit, _⟩ | ⟨_, w1, rest'⟩
+    · omega
+    · simp only at rest'
+      obtain ⟨w2, g3, _⟩ := rest'
+      unfold clientGet
+      have e1 : askGet k (run s a1.env) a1 = ((get s k a1.t a1.cands).1, none) := by rw [h1]; exact waitAns s a1 w1
+      rw [sendLoop_wait _ _ _ _ _ _ hpos _ e1]
+      have e2 : askGet k (run (get s k a1.t a1.cands).1 a2.env) a2 =
+          ((get (drainWith (get s k a1.t a1.cands).1 (get s k a1.t a1.cands).1.jobs inj) k a2.t a2.cands).1, none) := by
+        rw [h2, run_drainOps]; exact waitAns _ a2 w2
+      rw [sendLoop_wait _ _ _ _ _ _ hpos2 _ e2]
+      exact ⟨_, sendLoop_first _ _ _ _ _ _ hpos3 _ _ (by rw [h3, run_drainOps]; exact grantAns _ a3 _ _ g3)⟩
+
+/-- `TimeoutError` means the budget was used up by pauses after `wait` answers -- `wait` is never fatal and the loop never
+gives up early: if `client.allocate` / `client.get` ends in `timeout` after `n` requests, then `budget ≤ n · 100 ms`
+(so with the default 60 s at least 600 requests were made). For EVERY state and schedule. -/
+theorem c09_client_timeout_exhausted (s : St) (k : String) (size : Nat) (deser : String) (budget : Nat) (sched : List Attempt) (s' : St) (n : Nat) :
+    (clientAlloc s k size deser budget sched = (s', .timeout, n) → budget ≤ n * sleepMs) ∧
+    (clientGet s k budget sched = (s', .timeout, n) → budget ≤ n * sleepMs) := by
+  constructor
+  · intro h
+    have := (sendLoop_timeout _ (askAdd_no_timeout k size deser) sched budget s 0 s' n h).2
+    simpa using this
+  · intro h
+    have := (sendLoop_timeout _ (askGet_no_timeout k) sched budget s 0 s' n h).2
+    simpa using this
+
+/-- the buffer returned by `client.get` closes with the reader id that was granted, the one returned by `client.allocate`
+with the empty id (the writer's close): `granted rdid` carries exactly what the close lambda sends -/
+theorem c09_client_close_ids (s : St) (k : String) (size : Nat) (deser : String) (budget : Nat) (sched : List Attempt) (s' : St) (rdid : String) (n : Nat) :
+    (clientAlloc s k size deser budget sched = (s', .granted rdid, n) → rdid = "") := by
+  unfold clientAlloc
+  suffices h : ∀ (sched : List Attempt) (budget : Nat) (s : St) (m : Nat), sendLoop (askAdd k size deser) sched budget s m = (s', .granted rdid, n) → rdid = "" from h sched budget s 0
+  intro sched
+  induction sched with
+  | nil => intro budget s m h; simp only [sendLoop] at h; split at h <;> cases h
+  | cons a rest ih =>
+    intro budget s m h
+    simp only [sendLoop] at h
+    split at h
+    · cases h
+    · cases hask : askAdd k size deser (run s a.env) a with
+      | mk s1 o =>
+        cases o with
+        | none => simp only [hask] at h; exact ih _ _ _ h
+        | some r =>
+          simp only [hask] at h
+          unfold askAdd at hask
+          split at hask <;> cases hask <;> cases h
+          rfl
+
+/-! ### delayed purge when the readers have gone stale (known finding C09-stale-reader-close) -/
+
+/-- a purge arrives during a read; the reader stays silent for longer than STALE_READ; memory pressure evicts the
+dataset under it; the reader closes at last -/
+def staleReaderOps : List Op :=
+  [.add "a" 6 "" 1, .cwrite "a" 6 7, .closeW "a", .get "a" 2 ["r1"], .purge "a",     -- purge delayed by r1
+   .add "b" 6 "" 1000,                                                                  -- r1 is stale: a is evicted
+   .io 0 .ok, .cb 0, .closeR "a" "r1"]
+
+/-- Clause "a purge during a read takes effect when the last reader closes" is false when the dataset was evicted under
+a reader that had gone stale: `close_callback` refuses the close (`ValueError`: status is not `in_memory`), the reader
+stays registered, the purge flag stays set, the dataset stays in the store (on disk) and comes back with the next `get`.
+Replayed on the real store (corpus/C09_stale_reader_close.json). -/
+theorem c09_delayed_purge_stale_full_fails :
+    ¬ ∀ (cap sc sr : Nat) (ops : List Op) (k r : String) (d : Dataset),
+        SafeRun (init cap sc sr) ops → find? (run (init cap sc sr) ops).ds k = some d → d.delayed = true →
+        eraseReader d.readers r = [] → r ≠ "" →
+        (closeCb (run (init cap sc sr) ops) k r).2 = .ok ∧ find? (closeCb (run (init cap sc sr) ops) k r).1.ds k = none := by
+  intro h
+  have := h 10 900 900 (staleReaderOps.take 8) "a" "r1"
+    { gen := 0, size := 6, status := .onDisk, created := 1, readers := [("r1", 2)], first := 2, last := 2, deser := "",
+      delayed := true, wrote := some 7 } (by decide) (by decide) rfl (by decide) (by decide)
+  revert this
+  decide
+
+/-! ### not readable before the writer has finished, at the level of histories -/
+
+/-- **In every history of the class, a dataset that is handed out has been closed by its own writer before**: after a
+`SafeRun` history in which every writer's close reaches the allocation it was granted and no eviction attempt happens
+while some writer is older than STALE_CREATE (`WriterRun`), a granted `get` refers to a dataset whose allocation `g` has
+an earlier `close_callback(key, "")` step in the history, sent by the writer of allocation `g` while `g` was being
+written (status `created`) -- the step that made it readable. The two excluded classes are known findings
+(`c09_readable_after_close_full_fails`). -/
+theorem c09_readable_after_close_partial (cap sc sr : Nat) (as : List AOp)
+    (hs : SafeRun (init cap sc sr) (as.map (·.1))) (hw : WriterRun (init cap sc sr) as)
+    (k : String) (t : Nat) (cands : List String) (size : Nat) (r deser : String)
+    (hg : (get (run (init cap sc sr) (as.map (·.1))) k t cands).2 = .granted size r deser) :
+    ∃ d pre post op k', find? (run (init cap sc sr) (as.map (·.1))).ds k = some d ∧
+      as = pre ++ (op, d.gen) :: post ∧ wclose op = some k' ∧
+      ∃ d0, find? (run (init cap sc sr) (pre.map (·.1))).ds k' = some d0 ∧ d0.status = .created ∧ d0.gen = d.gen := by
+  have hall := readable_run as (init cap sc sr) [] (base_init cap sc sr) (core_init cap sc sr) hs hw
+    (by intro k d h; simp [init] at h)
+  rw [runA_fst] at hall
+  -- the dataset handed out is `in_memory`
+  have hd : ∃ d, find? (run (init cap sc sr) (as.map (·.1))).ds k = some d ∧ d.status = .inMemory := by
+    generalize run (init cap sc sr) (as.map (·.1)) = s at hg
+    unfold get at hg
+    cases hd : find? s.ds k with
+    | none => simp [hd] at hg
+    | some d =>
+      simp only [hd] at hg
+      cases hst : d.status <;> simp only [hst] at hg
+      · cases hg
+      · exact ⟨d, rfl, hst⟩
+      · cases hg
+      · split at hg <;> cases hg
+      · cases hg
+  obtain ⟨d, hd, hst⟩ := hd
+  have hmem := hall k d hd (by rw [hst]; simp)
+  rcases closed_origin as (init cap sc sr) [] d.gen hmem with h0 | ⟨pre, post, op, k', d0, e, hwc, hd0, hst0, hg0⟩
+  · cases h0
+  · exact ⟨d, pre, post, op, k', hd, e, hwc, d0, hd0, hst0, hg0⟩
+
+/-- a writer older than STALE_CREATE is treated as dead: evicted, paged in again, handed out -- never closed -/
+def staleWriterOps : List AOp :=
+  [(.add "a" 6 "" 1, 0), (.cwrite "a" 6 7, 0), (.add "b" 6 "" 1000, 1), (.io 0 .ok, 0), (.cb 0, 0),
+   (.get "a" 1001 ["r"], 0), (.io 1 .ok, 0), (.cb 1, 0)]
+
+/-- the dataset is dropped while being written (purge in status `created`), the key is allocated again, and the FIRST
+writer's close marks the SECOND allocation readable -/
+def foreignCloseOps : List AOp :=
+  [(.add "a" 6 "" 1, 0), (.cwrite "a" 6 7, 0), (.purge "a", 0), (.add "a" 4 "" 2, 1), (.closeW "a", 0)]
+
+/-- Without the two conditions of `WriterRun` the statement is false -- each condition is needed on its own: a stale
+writer's dataset is handed out without any close (known finding C09-stale-writer-readable), and after a drop + key
+reuse the close of the OLD writer makes the NEW allocation readable (C09-purge-created-key-reuse). Both histories are
+`SafeRun`; both are replayed on the real store (corpus/C09_stale_writer.json, C09_purge_created_reuse.json). -/
+theorem c09_readable_after_close_full_fails :
+    (¬ ∀ (cap sc sr : Nat) (as : List AOp) (k : String) (t : Nat) (cands : List String) (size : Nat) (r deser : String) (d : Dataset),
+        SafeRun (init cap sc sr) (as.map (·.1)) →
+        (get (run (init cap sc sr) (as.map (·.1))) k t cands).2 = .granted size r deser →
+        find? (run (init cap sc sr) (as.map (·.1))).ds k = some d → d.gen ∈ (runA (init cap sc sr) [] as).2) ∧
+    (SafeRun (init 10 900 900) (staleWriterOps.map (·.1)) ∧ (runA (init 10 900 900) [] staleWriterOps).2 = [] ∧
+      (get (run (init 10 900 900) (staleWriterOps.map (·.1))) "a" 1002 ["r"]).2 = .granted 6 "r" "") ∧
+    (SafeRun (init 10 900 900) (foreignCloseOps.map (·.1)) ∧ (runA (init 10 900 900) [] foreignCloseOps).2 = [] ∧
+      (get (run (init 10 900 900) (foreignCloseOps.map (·.1))) "a" 3 ["r"]).2 = .granted 4 "r" "") := by
+  refine ⟨?_, by decide, by decide⟩
+  intro h
+  have := h 10 900 900 staleWriterOps "a" 1002 ["r"] 6 "r" ""
+    { gen := 0, size := 6, status := .inMemory, created := 1, readers := [], first := 0, last := 0, deser := "",
+      delayed := false, wrote := some 7 } (by decide) (by decide) (by decide)
+  revert this
+  decide
+
+/-! ### content after key reuse -/
+
+/-- **A page-out writes the CURRENT segment** (after every `SafeRun` history): whatever file an earlier life of the key
+(or an earlier page-out of this dataset) left in the spill directory -- `purge` never removes it: `old` is arbitrary --,
+after the I/O part of a page-out job the file under the key holds exactly the bytes of the segment that was paged out,
+and the segment is gone. Together with `c09_content_partial` (which holds for all `SafeRun` histories, key reuse
+included): the bytes read after purge + re-allocation + eviction + page-in are those of the LAST writer. (A `_page_out`
+that skips the write when a file of the same size exists returns the PREVIOUS life's bytes; the life-cycle family of
+the generator reaches it.) -/
+theorem c09_content_after_reuse (cap sc sr : Nat) (ops : List Op) (hs : SafeRun (init cap sc sr) ops) (id : Nat) (j : Job) (g : Seg)
+    (old : Option Seg) (hj : findJob (run (init cap sc sr) ops).jobs id = some j) (hk : j.kind = .out)
+    (hio : j.io = none) (hseg : find? (run (init cap sc sr) ops).segs j.key = some g)
+    (_hold : find? (run (init cap sc sr) ops).files j.key = old) :
+    (ioStep (run (init cap sc sr) ops) id .ok).2 = .done true ∧
+    find? (ioStep (run (init cap sc sr) ops) id .ok).1.files j.key = some g ∧
+    find? (ioStep (run (init cap sc sr) ops) id .ok).1.segs j.key = none := by
+  obtain ⟨_, hc⟩ := core_run ops _ (base_init cap sc sr) (core_init cap sc sr) hs
+  generalize run (init cap sc sr) ops = s at *
+  have e : ioStep s id .ok = ({ s with files := put s.files j.key g, segs := erase s.segs j.key, jobs := setJobIo s.jobs id true }, .done true) := by
+    simp [ioStep, hj, hio, hk, hseg]
+  rw [e]
+  exact ⟨rfl, by simp only [put_find?, ↓reduceIte], find?_erase_self _ _ hc.ndSegs⟩
+
+/-- two lives of one key with the same size and different bytes, each written, evicted, read back and purged: the second
+life reads its own bytes (7 then 9), and the history is in the class of `c09_content_partial` -/
+def twoLivesOps : List Op :=
+  [.add "a" 6 "" 1, .cwrite "a" 6 7, .closeW "a", .add "p" 10 "" 2, .io 0 .ok, .cb 0,     -- life 1 evicted
+   .get "a" 3 ["r1"], .io 1 .ok, .cb 1, .get "a" 4 ["r1"], .closeR "a" "r1", .purge "a",  -- read back, purged (file stays)
+   .add "a" 6 "" 5, .cwrite "a" 6 9, .closeW "a", .add "p" 10 "" 6, .io 2 .ok, .cb 2,     -- life 2, same size, evicted
+   .get "a" 7 ["r2"], .io 3 .ok, .cb 3]
+
+example : SafeRun (init 10 900 900) twoLivesOps ∧
+    find? (run (init 10 900 900) (twoLivesOps.take 12)).files "a" = some ⟨6, 7⟩ ∧
+    (get (run (init 10 900 900) twoLivesOps) "a" 8 ["r2"]).2 = .granted 6 "r2" "" ∧
+    find? (run (init 10 900 900) twoLivesOps).segs "a" = some ⟨6, 9⟩ := by decide
 
 /-! ### non-vacuity -/
 
@@ -766,7 +1022,6 @@ example :
     find? (run (init 10 900 900) [.add "a" 6 "" 1, .cwrite "a" 6 7, .add "c" 9 "" 2, .closeW "a"]).ds "b" = none ∧
     6 ≤ (run (init 10 900 900) [.add "a" 6 "" 1, .cwrite "a" 6 7, .add "c" 9 "" 2, .closeW "a"]).free +
         candTotal 900 900 4 (run (init 10 900 900) [.add "a" 6 "" 1, .cwrite "a" 6 7, .add "c" 9 "" 2, .closeW "a"]).ds ∧
-    EvictableWritten (run (init 10 900 900) [.add "a" 6 "" 1, .cwrite "a" 6 7, .add "c" 9 "" 2, .closeW "a"]) 4 ∧
     (add (run (init 10 900 900) [.add "a" 6 "" 1, .cwrite "a" 6 7, .add "c" 9 "" 2, .closeW "a"]) "b" 6 "" 4).2 = .wait := by
   decide
 
